@@ -49,6 +49,10 @@ CHECKS = {
    technique="exhaustive fault enumeration on the real constructors and Drop impls over the real transports: every k-th DMA allocation failing, every truncated configuration space, usage histories followed by drop; oracles = platform ledger, device liveness at each dma_dealloc (hook) and at each heap free of a still-posted buffer (global allocator interposer)",
    text="For all 11 drivers on the model, MMIO legacy/modern and PCI transports and several feature variants: each of the K DMA allocations of a fault-free construction is made to fail in turn, the configuration space is truncated to every shorter length (9P: also empty, non-UTF-8 and over-long tags), and fault-free usage histories of 0-3 steps (non-blocking requests left outstanding, stocked receive queues, held receive buffers) are followed by drop. Failure must be an error not a panic; every DMA region is returned exactly once with its original address, pointer, page count and flag; no queue region and no posted driver-owned heap buffer is released while the device is live on that queue.",
    note="Liveness is judged by the register-level device models (DRIVER_OK set, no reset since, queue enabled). Buffers of requests outstanding at drop stay shared: outside this property."),
+ "C14": dict(level="model_checking", design="DESIGN.md §4 C14",
+   technique="deviation-bounded DFS over operation sequences of the real VirtIOBlk against a reference in-memory disk that decodes every chain; device status and completion order are explored choices; bouncing Hal",
+   text="Every sequence (bounded depth) of read/write over five sector/length variants including 2^32 and 2^64-1, flush, device_id and the non-blocking interface with up to three requests outstanding and completed by the device in every order, under four feature sets and device statuses OK/IOERR/UNSUPP/0xff: each chain must be header(type, reserved 0, sector) + data in the right direction + a one-byte writable status; caller buffers and the reference disk must agree; each completion returns its own request's status and data (request/response objects are reused without reset); capacity/readonly/flush gating checked.",
+   note="Trusts the reference block device (lab/src/c14.rs) written from virtio spec 5.2.6."),
 }
 
 NOT_YET = "check not built yet in this round (machinery under construction; see DESIGN.md)"
